@@ -370,6 +370,13 @@ class ExecutionContext:
                             assert isinstance(value, list)
                             var.append(value)
                         localScope[ref] = var
+                    elif (
+                        instruction.Type.IsScalar()
+                        and len(instruction.Values) == 1
+                    ):
+                        localScope[ref] = localScope[
+                            instruction.Values[0].Reference
+                        ]
                     else:
                         Errors.ERROR_INTERNAL_COMPILER_ERROR.Raise(
                             f"Cannot construct primitive of type: {instruction.Type}"
